@@ -147,7 +147,9 @@ def check_replication(rng, X, desc):
         if best is None or max(dm, dw, dc) < max(best):
             best = (dm, dw, dc)
     dm, dw, dc = best
-    if max(dm, dw, dc) > (1e-6 if n_init == 1 else 1e-5):
+    # data far from the origin carry fewer digits than their spread needs: eps*max|x|/min(std) is the relative resolution left
+    prec = float(np.finfo(float).eps * np.max(np.abs(X)) / max(float(np.min(np.std(X, axis=0))), 1e-300))
+    if max(dm, dw, dc) > (1e-6 if n_init == 1 else 1e-5) + 1e3 * prec:
         # k-means++ seeding picks the same *point* only if the draw does not land within rounding of a
         # cumulative-weight boundary; a different seed point is a different (legitimate) EM start
         return [("gmm-replication", f"integer weights vs replicated points differ: means {dm:.3g} weights {dw:.3g} cov {dc:.3g} ({ct},K={K},iters={iters},n_init={n_init})")]
